@@ -467,6 +467,8 @@ def run(repo: Repo) -> Result:
                     ok = admits(lp.tree(), g, ch, bool(lp.p.flags & re.DOTALL))
                     res.add("C06.R1", f"{lp.key()}::group {g} admits {ch!r}", ok, f"component names may contain {ch!r}" if ok else f"the character class of group `{g}` does not admit {ch!r}: fully qualified dotted module names / identifiers cannot be component names", lp.where(), kind="regex-language")
     res.analysed["form_table_lines"] = len(samples)
+    res.analysed["unmodelled"] = list(interp.unknown)
+    res.analysed["interpreted_functions"] = sorted(interp.called)
 
     # ---- flow of the role groups into the result
     def atom(lp: LinePattern, g: str) -> tuple:
